@@ -23,6 +23,16 @@ pub fn gen_coll(
     ctx: &Context,
     constr: &mut ConstrBuilder,
 ) -> Constrained {
+    // the elements of a collection are expressions, also where the construct itself stands as a statement
+    gen_coll_of(ast, &env.is_expr(true), ctx, constr).map(|out| out.is_expr(env.is_expr))
+}
+
+fn gen_coll_of(
+    ast: &AST,
+    env: &Environment,
+    ctx: &Context,
+    constr: &mut ConstrBuilder,
+) -> Constrained {
     match &ast.node {
         Node::Set { elements } | Node::List { elements } => {
             gen_vec(elements, env, false, ctx, constr)?;
